@@ -565,20 +565,23 @@ def add_mul_wallace(
         c = cn
 
     labels_a = []
-    labels_b = []
-    shift = 0
+    # maximal runs of the second row, as (first column, labels): the row may have
+    # gaps (columns that received no carry), so every run is added at its own position
+    runs_b: list[tuple[int, list[gate.Label]]] = []
     for i in range(n + m):
         if c[i][0] != PLACEHOLDER_STR:
             labels_a.append(c[i][0])
         if c[i][1] != PLACEHOLDER_STR:
-            labels_b.append(c[i][1])
-        elif len(labels_b) == 0:
-            shift += 1
+            if i > 0 and c[i - 1][1] != PLACEHOLDER_STR:
+                runs_b[-1][1].append(c[i][1])
+            else:
+                runs_b.append((i, [c[i][1]]))
 
-    return reverse_if_big_endian(
-        add_sum_two_numbers_with_shift(circuit, shift, labels_a, labels_b)[: n + m],
-        big_endian,
-    )
+    res = labels_a
+    for shift, labels_b in runs_b:
+        res = add_sum_two_numbers_with_shift(circuit, shift, res, labels_b)
+
+    return reverse_if_big_endian(res[: n + m], big_endian)
 
 
 def add_mul_pow2_m1(
